@@ -376,7 +376,7 @@ def _job(job):
                 d2 = copy.deepcopy(d2)
                 for k, node in enumerate(d2["declarations"]):
                     dtext = node.get("decl", "")
-                    if (bkind == "class" and dtext.split() == ["class", bname]) or (bkind == "func" and "(" in dtext and _decl_name(dtext) == bname):
+                    if (bkind == "class" and dtext.split()[:2] == ["class", bname]) or (bkind == "func" and "(" in dtext and _decl_name(dtext) == bname):
                         d2["declarations"][k] = {"block": True, "options": {"wrap_" + l: False for l in off}, "declarations": [node]}
                         break
             r, tree, lists = run_case(work, "case%d" % i, d2, name, argv, case["flags"], case["dirs"])
